@@ -55,6 +55,10 @@ func Mermaid(spec *Spec, w io.WriteCloser, opts *MermaidOpts, fromNode, toNode s
 	// Use copies of states that don't have Name set.
 	nodes := make(map[string]*Node, len(spec.Nodes))
 	for name, n := range spec.Nodes {
+		if n == nil {
+			// As Compile does: a null node is an empty node.
+			n = &Node{}
+		}
 		nodes[name] = n
 	}
 
